@@ -116,24 +116,33 @@ class Network(MutableMapping):
 
         Must be overridden in a subclass if a custom interface is used.
         """
-        try:
-            for node in self.nodes.values():
-                if hasattr(node, "pdo"):
-                    node.pdo.stop()
-                # The other periodic transmissions end with the bus as well,
-                # their owners must not stop them again later
-                nmt = getattr(node, "nmt", None)
-                if hasattr(nmt, "stop_node_guarding"):
-                    nmt.stop_node_guarding()
-                if hasattr(nmt, "stop_heartbeat"):
-                    nmt.stop_heartbeat()
-            self.sync.stop()
-        finally:
-            if self.notifier is not None:
-                self.notifier.stop(self.NOTIFIER_SHUTDOWN_TIMEOUT)
-            if self.bus is not None:
-                self.bus.shutdown()
-            self.bus = None
+        stops = []
+        for node in self.nodes.values():
+            if hasattr(node, "pdo"):
+                stops.append(node.pdo.stop)
+            # The other periodic transmissions end with the bus as well,
+            # their owners must not stop them again later
+            nmt = getattr(node, "nmt", None)
+            if hasattr(nmt, "stop_node_guarding"):
+                stops.append(nmt.stop_node_guarding)
+            if hasattr(nmt, "stop_heartbeat"):
+                stops.append(nmt.stop_heartbeat)
+        stops.append(self.sync.stop)
+        errors = []
+        for stop in stops:
+            # A stop refused by the interface must not keep the others
+            # from being stopped, nor the bus from being shut down
+            try:
+                stop()
+            except Exception as exc:
+                errors.append(exc)
+        if self.notifier is not None:
+            self.notifier.stop(self.NOTIFIER_SHUTDOWN_TIMEOUT)
+        if self.bus is not None:
+            self.bus.shutdown()
+        self.bus = None
+        if errors:
+            raise errors[0]
         self.check()
 
     def __enter__(self):
